@@ -49,6 +49,10 @@ func SchedCorpus(tier, fontPath3 string) []SchedCase {
 		cs = append(cs, SchedCase{fmt.Sprintf("label-clash optimize=%v", opt), strings.Replace(big, "L1:", "S_3:", 1), comp.Opts{Optimize: opt}})
 		cs = append(cs, SchedCase{fmt.Sprintf("text-label-clash optimize=%v", opt), strings.Replace(big, "L1:", "S_Text_0:", 1), comp.Opts{Optimize: opt}})
 	}
+	twoClashes := "script S {\n\tlock\n\tif (flag(A)) {\n\t\tS_1:\n\t\tfoo\n\t} else {\n\t\tS_2:\n\t\tbar\n\t}\n\twhile (flag(B)) {\n\t\tS_Text_0:\n\t\tmsgbox(\"t\")\n\t}\n\tS_4:\n\trelease\n}\n"
+	for _, opt := range []bool{true, false} {
+		cs = append(cs, SchedCase{fmt.Sprintf("several label clashes in different chunks optimize=%v", opt), twoClashes, comp.Opts{Optimize: opt}})
+	}
 	unknown := "text T {\n\tformat(\"some text to format\", \"nofont\")\n}\n"
 	cs = append(cs, SchedCase{"unknown font, shipped 2-font config", unknown, comp.Opts{FontPath: shipped}})
 	cs = append(cs, SchedCase{"unknown font, 3-font config", unknown, comp.Opts{FontPath: fontPath3}})
